@@ -35,7 +35,7 @@ Lemma str_encode_shape w t bin :
 Proof.
   intros Hn Hc H. unfold str_encode in H.
   inv_bind H as h Hh Hk. inv_bind Hk as o Ho Hk2. inv_bind Hk2 as s Hs Hk3. inversion Hk3; subst bin.
-  rewrite enc_strings_join in Hs by (eapply Forall_impl; [|exact Hc]; apply clean_ascii).
+  rewrite enc_strings_join in Hs by (exact Hc).
   inversion Hs; subst s. exists (h ++ o). split; [rewrite app_assoc; reflexivity|].
   apply pack_length in Hh. apply enc_offsets_length in Ho; [|assumption].
   rewrite app_length. unfold hdr_len. lia.
